@@ -16,7 +16,7 @@ variable {gh : Ghost}
 /-- The state invariant while frames of `_handle_key` hold `int i` references on window `i`. -/
 structure KInv (gh : Ghost) (st : St) (int : Nat → Nat) : Prop extends SInvB gh st [] where
   up : ∀ (i : Nat) (w : Win), LiveW st.tree i w → w.refcount ≤ ((getX st i).appRefs : Int) + (gh.win i : Int) + (int i : Int) ∧
-    (i = 0 → ((getX st i).appRefs : Int) + (gh.win i : Int) + (int i : Int) ≤ w.refcount)
+    (gh.covers i → ((getX st i).appRefs : Int) + (gh.win i : Int) + (int i : Int) ≤ w.refcount)
   lo : ∀ (i : Nat) (w : Win), LiveW st.tree i w → 1 + (int i : Int) ≤ w.refcount
   glive : 0 < gh.win 0 → ∃ r, LiveW st.tree 0 r
 
@@ -109,7 +109,7 @@ theorem KInv.set_refcount_x {st : St} {int : Nat → Nat} (K : KInv gh st int) {
     (x : WinX) (hp : x.pen = (getX st win).pen)
     (r : Int) (int' : Nat → Nat) (hoth : ∀ j, j ≠ win → int' j = int j)
     (hup : r ≤ (x.appRefs : Int) + (gh.win win : Int) + (int' win : Int) ∧
-      (win = 0 → (x.appRefs : Int) + (gh.win win : Int) + (int' win : Int) ≤ r)) (hlo : 1 + (int' win : Int) ≤ r) :
+      (gh.covers win → (x.appRefs : Int) + (gh.win win : Int) + (int' win : Int) ≤ r)) (hlo : 1 + (int' win : Int) ≤ r) :
     KInv gh (setW (setX st win x) win { ww with refcount := r }) int' ∧ Pres st (setW (setX st win x) win { ww with refcount := r }) := by
   obtain ⟨inv', hrel⟩ := K.tinv.set_refcount hw r
   have hlt : win < st.wx.size := by rw [K.wx_size]; exact hw.lt
@@ -182,7 +182,7 @@ theorem setX_getX_self (st : St) (i : Nat) : setX st i (getX st i) = st := by
 theorem KInv.set_refcount {st : St} {int : Nat → Nat} (K : KInv gh st int) {win : Nat} {ww : Win} (hw : LiveW st.tree win ww)
     (r : Int) (int' : Nat → Nat) (hoth : ∀ j, j ≠ win → int' j = int j)
     (hup : r ≤ ((getX st win).appRefs : Int) + (gh.win win : Int) + (int' win : Int) ∧
-      (win = 0 → ((getX st win).appRefs : Int) + (gh.win win : Int) + (int' win : Int) ≤ r)) (hlo : 1 + (int' win : Int) ≤ r) :
+      (gh.covers win → ((getX st win).appRefs : Int) + (gh.win win : Int) + (int' win : Int) ≤ r)) (hlo : 1 + (int' win : Int) ≤ r) :
     KInv gh (setW st win { ww with refcount := r }) int' ∧ Pres st (setW st win { ww with refcount := r }) := by
   have := K.set_refcount_x hw (getX st win) rfl r int' hoth hup hlo
   rw [setX_getX_self] at this
@@ -196,7 +196,8 @@ theorem KInv.refI {st : St} {int : Nat → Nat} (K : KInv gh st int) {win : Nat}
   have hu := K.up win ww hw
   have hl := K.lo win ww hw
   obtain ⟨K', P'⟩ := K.set_refcount hw (ww.refcount + 1) (bump int win) (fun j hj => by simp [bump, hj])
-    (by simp only [bump, if_true]; omega) (by simp only [bump, if_true]; omega)
+    ⟨by simp only [bump, if_true]; omega, fun hc => by have := hu.2 hc; simp only [bump, if_true]; omega⟩
+    (by simp only [bump, if_true]; omega)
   exact ⟨_, rfl, K', P', rfl⟩
 
 /-- `tickit_window_unref` of a window that holds another reference: the count goes down, nothing else happens. -/
@@ -216,7 +217,8 @@ theorem KInv.unrefI (cfg : Cfg) {st : St} {int : Nat → Nat} (K : KInv gh st in
   have hl := K.lo win ww hw
   rw [unrefW_dec cfg hw (by omega)]
   obtain ⟨K', P'⟩ := K.set_refcount hw (ww.refcount - 1) (unbump int win) (fun j hj => by simp [unbump, hj])
-    (by simp only [unbump, if_true]; omega) (by simp only [unbump, if_true]; omega)
+    ⟨by simp only [unbump, if_true]; omega, fun hc => by have := hu.2 hc; simp only [unbump, if_true]; omega⟩
+    (by simp only [unbump, if_true]; omega)
   exact ⟨_, rfl, K', P', rfl⟩
 
 /-! ## handlers that free nothing -/
